@@ -152,20 +152,86 @@ def storesOf : List Op → List Name
 
 def drop (A : List Var) (x : Var) : List Var := A.filter (· != x)
 
-/-- `A` = variables known to reference only buffers allocated during this call -/
+/-- effect of one operation on the set `A` of variables known to reference only buffers allocated during
+    this call; `none` = the operation writes through a variable that is not in `A` -/
+def transfer (A : List Var) : Op → Option (List Var)
+  | .asarray d s | .reshape d s | .view d s _ | .wrapList d s | .maArray d s | .filled d s =>
+    some (if A.contains s then d :: A else drop A d)
+  | .copy d _ | .maCopy d _ | .fresh d | .scalar d => some (d :: A)
+  | .augName x | .setItem x | .setMask x => if A.contains x then some A else none
+  | .store _ _ | .ret _ => some A
+  | .load d _ => some (drop A d)
+
+/-- straight-line programs -/
 def safeFrom : List Var → List Op → Bool
   | _, [] => true
-  | A, .asarray d s :: t | A, .reshape d s :: t | A, .view d s _ :: t | A, .wrapList d s :: t
-  | A, .maArray d s :: t | A, .filled d s :: t =>
-    safeFrom (if A.contains s then d :: A else drop A d) t
-  | A, .copy d _ :: t | A, .maCopy d _ :: t | A, .fresh d :: t | A, .scalar d :: t => safeFrom (d :: A) t
-  | A, .augName x :: t | A, .setItem x :: t | A, .setMask x :: t => A.contains x && safeFrom A t
-  | A, .store _ _ :: t | A, .ret _ :: t => safeFrom A t
-  | A, .load d _ :: t => safeFrom (drop A d) t
+  | A, op :: t => match transfer A op with
+    | some A' => safeFrom A' t
+    | none => false
 
 /-- a program is safe when, starting with *no* variable owned (all arguments and all attributes
     belong to the caller / to earlier calls), every write goes through an owned variable -/
 def safe (p : List Op) : Bool := safeFrom [] p
+
+/-! ### structured programs (branches and loops), used for the data flow extracted from the python source -/
+
+inductive Stmt where
+  | op (o : Op)
+  /-- either branch may run -/
+  | ite (a b : List Stmt)
+  /-- the body runs zero or more times -/
+  | loop (body : List Stmt)
+  deriving Repr, Inhabited
+
+def inter (A B : List Var) : List Var := A.filter (B.contains ·)
+def subsetB (A B : List Var) : Bool := A.all (B.contains ·)
+
+mutual
+/-- ownership analysis of one statement: the owned set afterwards, `none` = possible foreign write -/
+def anaS (A : List Var) : Stmt → Option (List Var)
+  | .op o => transfer A o
+  | .ite a b =>
+    match anaL A a, anaL A b with
+    | some A1, some A2 => some (inter A1 A2)
+    | _, _ => none
+  | .loop b =>
+    -- candidate invariant: what is owned before the loop and still owned after one iteration
+    match anaL A b with
+    | none => none
+    | some A1 =>
+      let I := inter A A1
+      match anaL I b with
+      | none => none
+      | some A2 =>
+        if subsetB I A2 then some I
+        else match anaL [] b with      -- fall back to the trivial invariant
+          | some _ => some []
+          | none => none
+def anaL (A : List Var) : List Stmt → Option (List Var)
+  | [] => some A
+  | s :: t => match anaS A s with
+    | some A1 => anaL A1 t
+    | none => none
+end
+
+/-- structured program accepted from the initial owned set `A0` -/
+def safeB (A0 : List Var) (b : List Stmt) : Bool := (anaL A0 b).isSome
+
+/-! big-step semantics of structured programs: every possible execution
+   (one inductive family for statements `.inl s` and statement lists `.inr l`) -/
+inductive Exec : Stmt ⊕ List Stmt → St → St → Prop
+  | op (o : Op) (σ : St) : Exec (.inl (.op o)) σ (step σ o)
+  | iteL {a b : List Stmt} {σ σ' : St} : Exec (.inr a) σ σ' → Exec (.inl (.ite a b)) σ σ'
+  | iteR {a b : List Stmt} {σ σ' : St} : Exec (.inr b) σ σ' → Exec (.inl (.ite a b)) σ σ'
+  | loopDone {b : List Stmt} {σ : St} : Exec (.inl (.loop b)) σ σ
+  | loopStep {b : List Stmt} {σ σ1 σ2 : St} :
+      Exec (.inr b) σ σ1 → Exec (.inl (.loop b)) σ1 σ2 → Exec (.inl (.loop b)) σ σ2
+  | nil {σ : St} : Exec (.inr []) σ σ
+  | cons {s : Stmt} {t : List Stmt} {σ σ1 σ2 : St} :
+      Exec (.inl s) σ σ1 → Exec (.inr t) σ1 σ2 → Exec (.inr (s :: t)) σ σ2
+
+abbrev ExecS (s : Stmt) (σ σ' : St) : Prop := Exec (.inl s) σ σ'
+abbrev ExecL (l : List Stmt) (σ σ' : St) : Prop := Exec (.inr l) σ σ'
 
 /-! ### variables (roles bound by the caller are < 20) and attribute names -/
 namespace V
@@ -509,6 +575,26 @@ def report (σ0 σ : St) (p : List Op) : Json :=
     ("safe", Json.bool (safe p)),
     ("len", Json.num (JsonNumber.fromNat p.length))]
 
+/-- `{"k":"ite","a":[…],"b":[…]}`, `{"k":"loop","a":[…]}`, or an operation (optionally tagged `"sid": n`:
+    a write site, kept only when `n ∈ enable`) -/
+partial def stmtsOfJson (enable : List Nat) (j : Json) : Except String (List Stmt) := do
+  let a ← j.getArr?
+  let mut out : List Stmt := []
+  for e in a.toList do
+    let k ← getStr e "k"
+    if k == "ite" then
+      let x ← stmtsOfJson enable (← e.getObjVal? "a")
+      let y ← stmtsOfJson enable (← e.getObjVal? "b")
+      out := out ++ [Stmt.ite x y]
+    else if k == "loop" then
+      let x ← stmtsOfJson enable (← e.getObjVal? "a")
+      out := out ++ [Stmt.loop x]
+    else
+      match getNat e "sid" with
+      | .ok sid => if enable.contains sid then out := out ++ [Stmt.op (← opOfJson e)]
+      | .error _ => out := out ++ [Stmt.op (← opOfJson e)]
+  return out
+
 /-- line-protocol operations of this model; `none` = not one of mine -/
 def ops (op : String) (j : Json) : Option (Except String Json) :=
   match op with
@@ -536,6 +622,17 @@ def ops (op : String) (j : Json) : Option (Except String Json) :=
       let attrs ← bindingsOf j "attrs"
       let σ0 : St := { next := next, env := env, attrs := attrs, rets := [], written := [], ver := fun _ => 0 }
       return report σ0 (run σ0 p) p)
+  | "heap_safeB" => some (do
+      -- ownership analysis of a structured program extracted from the python source:
+      -- {"body":[stmts], "queries":[{"owned":[vars], "enable":[site ids]}, …]} → [bool, …]
+      let body ← j.getObjVal? "body"
+      let qs ← (← j.getObjVal? "queries").getArr?
+      let rs ← qs.toList.mapM fun q => do
+        let owned ← getNats q "owned"
+        let enable ← getNats q "enable"
+        let b ← stmtsOfJson enable.toList body
+        return Json.bool (safeB owned.toList b)
+      return Json.arr rs.toArray)
   | "heap_safe_all" => some (do
       -- the static verdict for every entry point over every configuration the harness lists
       let v ← j.getObjVal? "cfgs"
